@@ -50,11 +50,12 @@ def step_term(s):
     if op == "commit":
         q = qterm(s.get("q") or [])
         if s.get("queued"):
-            b = "Batch %d %s %s" % (s["idx"], lst(ev(e) for e in s.get("evs") or []), lst(N(t) for t in s.get("close") or []))
+            b = "Batch %d %s %s %s" % (s["idx"], lst(ev(e) for e in s.get("evs") or []), lst(N(t) for t in s.get("close") or []),
+                                       lst(ev(e) for e in s.get("silent") or []))
             return "CStep (Some (LCommit (%s))) (XQ %s)" % (b, q)
         return "CStep None (XQ %s)" % q
     if op == "restore":
-        return "CStep (Some (LRestore %s)) (XQ %s)" % (store_rows(s.get("q") or []), qterm(s.get("q") or []))
+        return "CStep (Some (LRestore %s %d)) (XQ %s)" % (store_rows(s.get("q") or []), s.get("idx", 0), qterm(s.get("q") or []))
     if op == "pub":
         return "CStep (Some LPublish) (XPub %s)" % vlib.coq_bool(s.get("did", False))
     if op == "sub":
